@@ -233,6 +233,18 @@ archive_entry_clone(struct archive_entry *entry)
 		    xp->name, xp->value, xp->size);
 		xp = xp->next;
 	}
+	/*
+	 * archive_entry_xattr_add_entry() inserts at the head, so the
+	 * copy is now in reverse order: turn it round again.
+	 */
+	xp = entry2->xattr_head;
+	entry2->xattr_head = NULL;
+	while (xp != NULL) {
+		struct ae_xattr *next = xp->next;
+		xp->next = entry2->xattr_head;
+		entry2->xattr_head = xp;
+		xp = next;
+	}
 
 	/*
 	 * Copy sparse data over.  The blocks are copied as they are:
